@@ -23,4 +23,15 @@ mkdir -p "$WORK/instr/$name"
   -adddir "$VERIF_ROOT/harness/consistenthash=tars/selector/consistenthash" \
   "${extra[@]}" || exit 2
 (cd "$VERIF_ROOT" && go build -tags verif -overlay "$WORK/$name.overlay.json" -o "$WORK/bin/$name" ./checks/c14) || exit 2
-exec "$WORK/bin/$name" "$@"
+# end-to-end part: hashed calls through the real endpoint manager (the hashed histories of checks/c15)
+rc1=0
+case " $* " in *" --replay "*) ;; *)
+  build_e1 c15 $TARS_E1_ARGS
+  rm -f "$VERIF_ROOT/evidence/C14.e2e.json"
+  C15_AS=C14 C15_ONLY=call VERIF_EVIDENCE_SUFFIX=.e2e "$WORK/bin/c15" "$@"; rc1=$?
+  ;;
+esac
+"$WORK/bin/$name" "$@"; rc2=$?
+rm -f "$VERIF_ROOT/evidence/C14.e2e.json"
+[ $rc1 -gt $rc2 ] && exit $rc1
+exit $rc2
